@@ -96,6 +96,13 @@ def check_rpy(t, c, cls, atol=1e-10):
         t.resid("q->rpy", d)
         if not d <= atol:
             t.fail("C10|%s|angles-differ-from-exact|%s" % (name, cls), dict(case, got=a, want=want))
+    # exp(log q) = q on these quaternions too (they include negative scalar parts)
+    lg = do(t, "C10|logarithm|%s" % cls, case, lambda: np.asarray(Quaternion(wq.copy()).logarithm, dtype=float))
+    if lg is not None and np.any(lg):
+        ex = do(t, "C10|exponential|%s" % cls, case, lambda: np.asarray(Quaternion(lg, versor=False).exponential, dtype=float))
+        sv = float(np.linalg.norm(wq[1:]))
+        if ex is not None and not maxdiff(ex, wq) <= TOL + 4e-16 / max(sv, 1e-300):
+            t.fail("C10|exp(log q)|not-q|%s" % ("w<0" if wq[0] < 0 else cls), dict(case, q=wq, got=ex))
     # composed in the implementation
     a = do(t, "C10|roundtrip|%s" % cls, case, lambda: np.asarray(Quaternion(rpy=angles.copy()).to_angles(), dtype=float))
     if a is not None and not float(np.max(np.abs(wrap(a - angles)))) <= atol:
